@@ -125,6 +125,8 @@ NON_JSON = ['', '{', 'NaN', '1e999', '-Infinity', '[1,]', 'nul', '"unterminated'
 
 
 def task(item):
+    if item[0] == 'namecase':
+        return rtbase.name_case_task(['decode'])
     pos, i = item
     u = rtbase.universe(TIER[0])
     t = u.ir_type(pos, i)
@@ -167,7 +169,7 @@ def run(tier, seed):
         rtbase.universe_failure(r, PROP, e)
         return r.finish('packed universe could not be built')
     TIER[0] = 'quick'
-    items = rtbase.items('quick')
+    items = rtbase.items('quick') + [('namecase', 0)]
     r.bounds.update({'shapes': len(u.shapes), 'positions': list(rtbase.POSITIONS), 'mutation_depth': DEPTH[0],
                      'json_kinds': [repr(k) for k in rtdoc.KINDS], 'modes': ['strict', 'lenient']})
     it = items[len(items) // 4]
